@@ -54,6 +54,12 @@ def r1(F, rep):
                     built[tgt] = grids[0]
     if "pmf" not in built:
         raise AnalysisBroken("integrate_potential objects of colvarbias_abf not found (got %s)" % built)
+    # every estimator integrates its own gradients: no two PMF objects are constructed on the same gradient grid
+    for P in sorted(built):
+        twins = sorted(Q for Q in built if Q != P and built[Q] == built[P])
+        rep.add("C16-R1", "built|%s" % P, "", "PMF object `%s` is constructed on `%s`%s" % (P, built[P], (", like `%s`" % twins[0]) if twins else " and no other PMF object is"), not twins,
+                detail="two integrators on one gradient grid: one of the written PMFs is the integral of another estimator's gradients, not of "
+                       "the gradients written next to it", func="colvarbias_abf")
     # integrate() call sites
     incremental = set()
     for f in abf:
@@ -328,37 +334,43 @@ def r4(F, rep):
 
 
 def r5(F, rep, rid="C16-R5"):
-    rep.rule(rid, "a grid's geometry is its own: a member function of a grid class reads a variable's `width`, `lower_boundary` "
-                  "or `upper_boundary` only where it also touches the grid's own copy of that quantity (the functions that fill "
-                  "the copies from the variables, or compare them) -- a grid configured with its own boundaries or width "
-                  "(`grid { ... }`) is integrated and labelled with them, not with the variable's")
+    rep.rule(rid, "a grid computes with its own geometry: inside the member functions of the grid classes a variable's `width`, "
+                  "`lower_boundary` or `upper_boundary` is copied, compared or validated (the initialiser, the consistency "
+                  "check) but never an operand of + - * / -- sums and abscissas are formed from the grid's own `widths` and "
+                  "`lower_boundaries`, which a `grid { ... }` block may have set to other values than the variable's")
     own = {"width": "widths", "lower_boundary": "lower_boundaries", "upper_boundary": "upper_boundaries"}
     n = 0
-    seen = set()
+    seen = {}
     for f in sorted(F.funcs.values(), key=lambda g: (g.q, g.m)):
         if "/src/" not in f.file or f.body is None or not f.cls or not f.cls.startswith(("colvar_grid", "integrate_potential")):
             continue
-        reads = {}
-        mine = set()
         for x in f.walk():
             if x["k"] != "MemberExpr" or x.get("dk") != "Field":
                 continue
             q = x.get("q") or ""
-            if q.startswith("colvar::") and q.split("::")[-1] in own:
-                reads.setdefault(q.split("::")[-1], x)
-            if q.split("::")[-1] in own.values() and ("colvar_grid" in q):
-                mine.add(q.split("::")[-1])
-        for nm, x in sorted(reads.items()):
-            key = "%s|%s" % (X.re_strip(f.q) if hasattr(X, "re_strip") else f.q, nm)
-            if key in seen:
+            nm = q.split("::")[-1]
+            if not (q.startswith("colvar::") and nm in own):
                 continue
-            seen.add(key)
-            n += 1
-            ok = own[nm] in mine
-            rep.add(rid, key, f.loc(x), "%s reads the variable's `%s` %s" % (f.q, nm, ("next to the grid's own `%s`" % own[nm]) if ok else
-                                                                              ("and never the grid's own `%s`" % own[nm])), ok,
-                    detail="with a `grid { ... }` block of its own the grid's width and boundaries differ from the variable's: the integral is "
-                           "scaled by the wrong bin width and written against the wrong abscissa", func=f.q)
+            # climb through member accesses, casts and parentheses to the expression that consumes the value
+            cur, par = x, f.parent(x)
+            while par is not None and par["k"] in ("MemberExpr", "ImplicitCastExpr", "ParenExpr", "CXXFunctionalCastExpr", "CStyleCastExpr",
+                                                   "CXXStaticCastExpr", "MaterializeTemporaryExpr", "CXXBindTemporaryExpr"):
+                cur, par = par, f.parent(par)
+            arith = par is not None and ((par["k"] == "BinaryOperator" and par.get("op") in ("+", "-", "*", "/")) or
+                                         (par["k"] == "CXXOperatorCallExpr" and par.get("op") in ("+", "-", "*", "/")) or
+                                         (par["k"] == "CompoundAssignOperator"))
+            key = "%s|%s" % (f.q, nm)
+            st = seen.setdefault(key, {"f": f, "x": x, "arith": None})
+            if arith and st["arith"] is None:
+                st["arith"] = x
+    for key, st in sorted(seen.items()):
+        n += 1
+        f, nm = st["f"], key.split("|")[-1]
+        bad = st["arith"]
+        rep.add(rid, key, f.loc(bad if bad is not None else st["x"]), "%s reads the variable's `%s` %s" % (
+            f.q, nm, "only to copy, compare or validate it" if bad is None else "as an operand of arithmetic, instead of the grid's own `%s`" % own[nm]), bad is None,
+            detail="with a `grid { ... }` block of its own the grid's width and boundaries differ from the variable's: the integral is "
+                   "scaled by the wrong bin width and written against the wrong abscissa", func=f.q)
     if n < 3:
         raise AnalysisBroken("%s: only %d reads of a variable's geometry inside grid classes (the grid initialiser and the consistency check expected)" % (rid, n))
 
